@@ -1,7 +1,7 @@
 #!/venv/bin/python
 """Re-run every filed seeded / harmless change against the current checks and rewrite its meta.json.
 
-usage: tools/reverify_all.py [seeded|benign|both] [--jobs N] [--only Cxx ...] [--skip Cyy ...] [--touch Czz ...] [--match -x ...]
+usage: tools/reverify_all.py [seeded|benign|both] [--jobs N] [--only Cxx ...] [--skip Cyy ...] [--touch Czz ...] [--match -x ...] [--nomatch -x ...]
 
 Changes are vetted in place (tools/file_seed.py / tools/file_benign.py on the filed directory).
 Checks of one lock group are never run concurrently against different trees (they share generated
@@ -59,6 +59,7 @@ def main():
             out.append(a)
         return set(out)
     only, skip, touch = opt("--only"), opt("--skip") or set(), opt("--touch")
+    nomatch = opt("--nomatch")
     match = opt("--match")      # keep only changes whose directory name contains one of these strings
     jobs = []
     for kind in (["seeded", "benign"] if which == "both" else [which]):
@@ -66,6 +67,8 @@ def main():
             if not (d / "meta.json").exists():
                 continue
             if match and not any(m in d.name for m in match):
+                continue
+            if nomatch and any(m in d.name for m in nomatch):
                 continue
             meta = json.loads((d / "meta.json").read_text())
             prop = meta.get("breaks_property") or meta["property"]
